@@ -74,3 +74,25 @@ def replay(which, hint_values=None):
                     if len(set(dq2)) != len(dq2) or any((x in dq2) != fl2[x] for x in range(len(fl2)) if x in dq or x in dq2):
                         bad.append('%s: bookkeeping inconsistent after call: deque %s flags %s (from %s)' % (router, dq2, fl2, dq))
     return {'replayed': bool(bad), 'detail': 'native %s battery: %d deviations %s' % (which, len(bad), bad[:3]), 'replay': {'scenario': 'routing', 'which': which}}
+
+
+def replay_books(rp):
+    """one bookkeeping operation of a real worker record from the explicit pre-state; the invariant is re-evaluated on the result"""
+    out, _, rc, err = native.run('worker_books', queue=rp['queue'], curr=rp['curr'], op=rp['op'], dead=1 if rp['dead'] else 0, timeout=30)
+    if rc != 0:
+        raise RuntimeError('native worker_books failed: ' + err[-300:])
+    d = dict(x.split(':', 1) for x in out['out'].split(';'))
+    q = [int(x) for x in d['queue'].split('+') if x]
+    c = [int(x) for x in d['curr'].split('+') if x]
+    p = {int(x.split(':')[0]): int(x.split(':')[1]) for x in d['pending'].split('+') if x}
+    want = {}
+    for k in q + c:
+        want[k] = want.get(k, 0) + 1
+    bad = []
+    if p != want:
+        bad.append('pending_key_table_is_exact: table %s, jobs %s' % (p, want))
+    if len(c) > 1:
+        bad.append('at_most_one_job_in_flight')
+    if rp['op'] == 'replace' and sorted(q + c) != sorted(rp['queue']):
+        bad.append('queued_jobs_survive_replacement')
+    return {'replayed': bool(bad), 'detail': 'native worker record %s: queue=%s in_flight=%s pending=%s ; violated %s' % (rp, q, c, p, bad), 'replay': {'which': 'books', 'rp': rp}}
